@@ -355,6 +355,17 @@ Definition prop_ext_reuse (prev : list (N * order)) (o : xop) (ok : bool) : list
        | _ => true
        end) "prop:external_id_not_carried_by_any_open_order_was_refused".
 
+(** Payments are unique per (source, external id): a creation naming a (source account, external id)
+    under which the implementation itself listed a payment before the step ([prev] = its previous
+    GetAllPayments answer) must be refused -- otherwise the older payment is replaced. *)
+Definition prop_pay_unique (prev : list payment) (o : xop) (ok : bool) : list string :=
+  tag (match o with
+       | XO (OPayCreate p) =>
+           if existsb (fun q => bytes_eqb (p_source q) (p_source p) && bytes_eqb (p_ext q) (p_ext p)) prev
+           then negb ok else true
+       | _ => true
+       end) "prop:payment_unique_per_source_and_external_id:creation_over_an_existing_payment_accepted".
+
 (** Model listings = implementation listings. *)
 Definition corr_obs (s : st) (ob : obs) : list string :=
   tag (forallb (fun id => opt_eqb order_eqb (get_order s id)
@@ -392,7 +403,7 @@ Definition is_known (t : string) : bool := String.prefix "prop:known:" t.
 
 (** One step: (new model state, tags that are not the known finding, known-finding tags). *)
 Definition check_step (s : xstate) (prev_max : N) (prev_ids : list N) (prev_mk : list (N * N))
-           (prev_orders : list (N * order)) (h : hstep)
+           (prev_orders : list (N * order)) (prev_pays : list payment) (h : hstep)
   : xstate * list string * list string :=
   let '(St o ok created ob ss) := h in
   let model_created :=
@@ -412,6 +423,7 @@ Definition check_step (s : xstate) (prev_max : N) (prev_ids : list N) (prev_mk :
     prop_obs prev_max prev_ids ob ++
     prop_markets prev_mk o ok created ob ++
     prop_ext_reuse prev_orders o ok ++
+    prop_pay_unique prev_pays o ok ++
     prop_commits ob ++
     filter (fun t => negb (is_known t)) sess in
   (s', tags, filter is_known sess).
@@ -428,11 +440,12 @@ Fixpoint dedup_str (l : list string) : list string :=
 (** Whole history: the tags of the first failing step (with its number), plus the known-finding
     tag if the known shape was met anywhere. *)
 Fixpoint check_steps (s : xstate) (prev_max : N) (prev_ids : list N) (prev_mk : list (N * N))
-         (prev_orders : list (N * order)) (i : N) (l : list hstep) (first : list string) (known : list string) : list string :=
+         (prev_orders : list (N * order)) (prev_pays : list payment) (i : N) (l : list hstep)
+         (first : list string) (known : list string) : list string :=
   match l with
   | [] => first ++ dedup_str known
   | h :: r =>
-      let '(s', tags, kn) := check_step s prev_max prev_ids prev_mk prev_orders h in
+      let '(s', tags, kn) := check_step s prev_max prev_ids prev_mk prev_orders prev_pays h in
       let '(St _ _ _ ob _) := h in
       let ids := map fst (ob_orders ob) in
       let mx := fold_left N.max ids prev_max in
@@ -440,7 +453,7 @@ Fixpoint check_steps (s : xstate) (prev_max : N) (prev_ids : list N) (prev_mk : 
                     | [], _ :: _ => stamp i tags
                     | _, _ => first
                     end in
-      check_steps s' mx ids (ob_mnames ob) (ob_orders ob) (N.succ i) r first' (known ++ kn)
+      check_steps s' mx ids (ob_mnames ob) (ob_orders ob) (ob_pays ob) (N.succ i) r first' (known ++ kn)
   end.
 
 (** After an import every order, payment and commitment of the genesis file must be there (the
@@ -463,13 +476,13 @@ Definition prop_imported (g : genesis) (names : list (N * N)) (h : hstep) : list
 
 Definition check (c : case) : list string :=
   match c with
-  | CHist steps => check_steps xinit 0 [] [] [] 0 steps [] []
+  | CHist steps => check_steps xinit 0 [] [] [] [] 0 steps [] []
   | CGen g names ok steps =>
       match init_genesis xinit g with
       | Some xs =>
           if ok then
             (match steps with h :: _ => prop_imported g names h | [] => ["corr:genesis_not_observed"] end) ++
-            check_steps xs (g_last_order g) (map fst (g_orders g)) names (g_orders g) 0 steps [] []
+            check_steps xs (g_last_order g) (map fst (g_orders g)) names (g_orders g) (g_pays g) 0 steps [] []
           else ["corr:genesis_accepted"]
       | None => tag (negb ok) "corr:genesis_accepted"
       end
